@@ -33,6 +33,10 @@ def run_cases(rec, cases, fn, max_harness_errors=3):
                 case, traceback.format_exc()[-2500:]))
             if len(rec.inconclusive) >= max_harness_errors:
                 break
+    if not rec.samples and cases:
+        # the check's own (richer) sampling did not trigger in this shard:
+        # record the replayable specification of the first case it ran
+        rec.sample({'case': cases[0]})
 
 
 def simple_replay(fn):
